@@ -80,6 +80,9 @@ func drawGate(r *Rng, b gateBias) gateCfg {
 	for i := 0; i < nops; i++ {
 		k := r.Intn(100)
 		switch {
+		case c.QK.Adapter() && k >= 86 && k < 95:
+			// park the dispatcher inside its next dequeue, complete some jobs meanwhile, then let it go
+			c.Ops = append(c.Ops, gateOp{Kind: "holddeq"}, gateOp{Kind: "release", Arg: r.Intn(8)}, gateOp{Kind: "release", Arg: r.Intn(8)}, gateOp{Kind: "add", Prio: Pick(r, prios...)}, gateOp{Kind: "unhold"})
 		case k < 30:
 			c.Ops = append(c.Ops, gateOp{Kind: "add", Prio: Pick(r, prios...)})
 		case k < 55:
@@ -123,6 +126,8 @@ type gateModel struct {
 	// limits in effect while the oldest running job has been running (for the C02 bound)
 	maxSince map[int]int
 	maxLimit int
+	held     bool  // the dispatcher is parked inside a dequeue call of the adapter, holding the item it took
+	transit  *mJob // that item: taken from the queue, not yet executing
 }
 
 func (m *gateModel) push(j *mJob) {
@@ -141,7 +146,16 @@ func (m *gateModel) push(j *mJob) {
 
 // settle performs the dispatches the real worker must have performed by the next quiescent point.
 func (m *gateModel) settle() {
-	for m.state == "Running" && len(m.running) < m.limit && len(m.queue) > 0 {
+	if m.held && m.transit == nil && len(m.queue) > 0 {
+		m.transit = m.queue[0]
+		m.queue = m.queue[1:]
+	}
+	if !m.held && m.transit != nil {
+		m.running[m.transit.idx] = true
+		m.maxSince[m.transit.idx] = m.limit
+		m.transit = nil
+	}
+	for !m.held && m.state == "Running" && len(m.running) < m.limit && len(m.queue) > 0 {
 		j := m.queue[0]
 		m.queue = m.queue[1:]
 		if j.cancelled {
@@ -181,8 +195,12 @@ func epGate(c *RunCtx, cfg gateCfg) *Result {
 		cancelled := map[int]bool{}
 		var startOrder []int // model dispatch order (for the final order check)
 		tuned := false
+		var hold chan struct{}
 		check := func(step int, op string) bool {
 			synctest.Wait()
+			if led != nil {
+				m.held = led.IsHeld()
+			}
 			before := map[int]bool{}
 			for i := range m.running {
 				before[i] = true
@@ -205,6 +223,27 @@ func epGate(c *RunCtx, cfg gateCfg) *Result {
 			if fmt.Sprint(want) != fmt.Sprint(got) {
 				// attribute: too many => C02, too few with pending => C03, wrong members => C04
 				det := fmt.Sprintf("%s: executing jobs %v, reference model %v (limit %d, state %s, model queue %v)", where, got, want, m.limit, m.state, mq(m.queue))
+				// a job behind the one in the dispatcher's hands executes: the started set is not a prefix
+				if m.transit != nil && !obs[m.transit.idx] {
+					for _, later := range m.queue {
+						if obs[later.idx] {
+							e.Fail("C04", "started-set-not-prefix", cfg.QK.String(), det+fmt.Sprintf("; job %d was taken from the queue first and has not started", m.transit.idx))
+						}
+					}
+				}
+				for _, j := range m.queue {
+					if j.cancelled {
+						continue
+					}
+					if !obs[j.idx] {
+						for _, later := range m.queue {
+							if later.seq != j.seq && obs[later.idx] {
+								e.Fail("C04", "started-set-not-prefix", cfg.QK.String(), det)
+							}
+						}
+					}
+					break
+				}
 				switch {
 				case len(got) > len(want):
 					e.Fail("C02", "more-in-flight-than-model", "", det)
@@ -249,7 +288,12 @@ func epGate(c *RunCtx, cfg gateCfg) *Result {
 			if p := s.W.NumPending(); p != len(m.queue) {
 				e.Fail("C17", "worker-pending-at-q", cfg.QK.String(), fmt.Sprintf("%s: worker.NumPending=%d, model %d", where, p, len(m.queue)))
 			}
-			if p := s.W.NumProcessing(); p != len(got) {
+			reserved := 0
+			if m.held {
+				reserved = 1 // the parked dispatch holds its slot
+				e.ntFor("C04")
+			}
+			if p := s.W.NumProcessing(); p != len(got)+reserved {
 				e.Fail("C17", "processing-at-q", "", fmt.Sprintf("%s: NumProcessing=%d, executing %d", where, p, len(got)))
 			}
 			if st := s.W.Status(); st != m.state {
@@ -312,6 +356,19 @@ func epGate(c *RunCtx, cfg gateCfg) *Result {
 			return
 		}
 		for step, op := range cfg.Ops {
+			if hold != nil {
+				switch op.Kind {
+				case "release", "add", "sleep", "unhold", "holddeq":
+				default:
+					close(hold)
+					hold = nil
+					led.Disarm()
+					e.Ev("unhold")
+					if !check(step, "unhold") {
+						return
+					}
+				}
+			}
 			switch op.Kind {
 			case "add":
 				i := next
@@ -432,6 +489,20 @@ func epGate(c *RunCtx, cfg gateCfg) *Result {
 				s.Bind(bk, l2)
 				e.Ev("bind", bk.String())
 				e.ntFor("C02")
+			case "holddeq":
+				if led == nil || hold != nil || m.state != "Running" {
+					continue
+				}
+				hold = led.HoldNextDequeue()
+				e.Ev("holddeq")
+			case "unhold":
+				if hold == nil {
+					continue
+				}
+				close(hold)
+				hold = nil
+				led.Disarm()
+				e.Ev("unhold")
 			case "sleep":
 				d := 100 * time.Microsecond
 				if cfg.Expiry > 0 {
@@ -443,6 +514,11 @@ func epGate(c *RunCtx, cfg gateCfg) *Result {
 			if !check(step+1, op.Kind) {
 				return
 			}
+		}
+		if hold != nil {
+			close(hold)
+			hold = nil
+			led.Disarm()
 		}
 		// wind down: make the worker run, release everything in model order, one quiescent point per release
 		switch m.state {
